@@ -320,7 +320,7 @@ def gen_random_case(rnd, size_class):
         for v in variables:
             dom = doms[v["cat"]]
             ex.append("v" if rnd.random() < 0.06 else value_for(rnd, dom, illtyped))
-        mode = rnd.choice("bBeeskklLsssLl")
+        mode = rnd.choice("bBeeskklLsssLlC")
         l = rnd.choice(loci) if mode in "kl" else tuple(case["best"])
         runs.append({"mode": mode, "l": list(l), "ex": ex})
     case["runs"] = runs
@@ -337,7 +337,7 @@ def gen_var_case(rnd):
     runs, expect = [], []
     for _ in range(rnd.randint(1, 5)):
         ex = [value_for(rnd, rnd.choice(["real", "int", "str", "void"])) for _ in range(nvars)]
-        mode = rnd.choice("esLl")
+        mode = rnd.choice("esLlC")
         runs.append({"mode": mode, "l": [0, 0], "ex": ex})
         expect.append(ex[vid])
     return {"ncats": 1, "nrows": len(cells), "best": [0, 0], "cells": cells, "runs": runs,
@@ -418,7 +418,7 @@ def gen_lazy_case(rnd):
     runs, expect = [], []
     for _ in range(rnd.randint(1, 4)):
         ex = [value_for(rnd, rnd.choice(["real", "int", "str"])) for _ in range(nvars)]
-        mode = rnd.choice("esLbB") if (taken is None or taken["k"] != "V") else rnd.choice("esL")
+        mode = rnd.choice("esLbBC") if (taken is None or taken["k"] != "V") else rnd.choice("esLC")
         runs.append({"mode": mode, "l": [0, 0], "ex": ex})
         if kind == "bool_l_and":
             expect.append("i:0")
@@ -429,7 +429,8 @@ def gen_lazy_case(rnd):
         else:
             expect.append(sym_value(taken))
     return {"ncats": 1, "nrows": 7, "best": [0, 0], "cells": cells, "runs": runs, "family": "lazy",
-            "expect": expect, "what": "%s %s" % (kind, "then" if take_then else "else")}
+            "expect": expect, "what": "%s %s" % (kind, "then" if take_then else "else"),
+            "poison_arg": args.index(POISON)}
 
 
 def relayout(rnd, case):
@@ -439,7 +440,7 @@ def relayout(rnd, case):
     cm = cell_map(case)
     root = tuple(case["best"])
     sizes = tree_sizes(case)
-    runs = [dict(r) for r in case["runs"] if r["mode"] in "bBesL"]
+    runs = [dict(r) for r in case["runs"] if r["mode"] in "bBesLC"]
     if not runs:
         return None
     how = rnd.choice(["unshare", "junk"])
@@ -509,8 +510,12 @@ def parse_out(line):
     for p in parts[1:]:
         w = p.split(" ")
         r, second = w[1], w[3]
-        s = " ".join(w[5:])
-        runs.append((r, second, s))
+        rest = w[5:]
+        asked = None
+        if len(rest) >= 2 and rest[-2] == "A":
+            asked = rest[-1]
+            rest = rest[:-2]
+        runs.append((r, second, " ".join(rest), asked))
     return parts[0], runs
 
 
@@ -523,13 +528,13 @@ def expected_cats(case):
 
 
 def strip_case(case):
-    return {k: case[k] for k in ("ncats", "nrows", "best", "cells", "runs", "family", "expect", "what", "how", "base")
+    return {k: case[k] for k in ("ncats", "nrows", "best", "cells", "runs", "family", "expect", "what", "how", "base", "poison_arg")
             if k in case}
 
 
 def generate(ck):
     rnd = ck.rng
-    n = 40 if ck.thorough else 1
+    n = 40 if ck.thorough else 2
     cases = []
     for _ in range(260 * n):
         cases.append(gen_var_case(rnd))
@@ -552,8 +557,187 @@ def generate(ck):
     return cases
 
 
+class Collect:
+    """a sink with the recording interface of vv.Check, used by the shrinker"""
+    def __init__(self):
+        self.violations, self.diffs = [], []
+
+    def add_violation(self, key, what, replay):
+        self.violations.append({"key": key, "what": what, "replay": replay})
+
+    def add_diff(self, *a, **k):
+        self.diffs.append(a)
+
+    def count(self, n=1):
+        pass
+
+    def nontriv(self, c):
+        pass
+
+    def sample(self, s, maxn=6):
+        pass
+
+
+def judge(cases, env, sink, hist):
+    """run harness and model on the cases, compare, evaluate the oracles"""
+    idx, harness, model = env
+    hl, ml = [], []
+    for c in cases:
+        h, m = lines_of(c, idx, want_den(c))
+        hl.append(h)
+        ml.append(m)
+    hout, crashes = pc.run_harness_resilient(harness, hl)
+    rc, mout, merr = vv.run_lines(model, "\n".join(ml) + "\n")
+    if rc != 0 or len(mout) != len(cases):
+        raise vv.BuildError("model driver failed: rc=%s %s" % (rc, merr[:500]))
+
+    def bump(h, k):
+        hist[h][k] = hist[h].get(k, 0) + 1
+    parsed = [None] * len(cases)
+    for k, c in enumerate(cases):
+        sink.count(len(c["runs"]))
+        bump("family", c["family"])
+        bump("rows", "<=12" if c["nrows"] <= 12 else "<=45" if c["nrows"] <= 45 else ">45")
+        bump("cats", str(c["ncats"]))
+        ho, mo = hout[k], mout[k]
+        rep = {"cases": [strip_case(c)], "harness_line": hl[k], "impl": ho, "model": mo}
+        if "base" in c:
+            rep["cases"] = [strip_case(cases[c["base"]]), dict(strip_case(c), base=0)]
+        if ho is None or ho.startswith("CRASH"):
+            sink.add_violation("sanitizer:%s" % c["family"], "the interpreter executes undefined behaviour on a "
+                             "well-formed program (sanitizer report / crash)",
+                             dict(rep, sanitizer=crashes.get(k, "")[-2000:]))
+            continue
+        if ho.startswith("BADLINE") or mo.startswith("BADLINE"):
+            sink.add_diff({"case": hl[k][:300]}, mo[:200], ho[:200], "harness or model driver rejected the case")
+            continue
+        head, hruns = parse_out(ho)
+        mhead, mruns = parse_out(mo)
+        parsed[k] = hruns
+        if head != expected_cats(c):
+            sink.add_diff({"case": hl[k][:300]}, expected_cats(c), head, "symbol categories differ from the model's table")
+        if mhead != "W 1":
+            sink.add_diff({"case": hl[k][:300]}, mhead, "-", "generated genome is not wf_genome_b (generator bug)")
+        _, shared = active(c, c["best"])
+        if shared or len({tuple(r["ex"]) for r in c["runs"] if r["mode"] in "slLBC"}) >= 2:
+            sink.nontriv(hl[k])
+        for j, run_ in enumerate(c["runs"]):
+            bump("mode", run_["mode"])
+            hr, hf, hs, _ = hruns[j]
+            mr, md, ms, masked = mruns[j]
+            bump("outcome", "THROW" if hr == "THROW" else hr[0])
+            rj = dict(rep, run_index=j, mode=run_["mode"])
+            # correspondence: machine model vs implementation (result and state)
+            if hr != mr or hs != ms:
+                sink.add_diff({"case": hl[k][:400], "run": j}, "R %s S %s" % (mr, ms), "R %s S %s" % (hr, hs))
+            # O1: the denotation of the unfolded tree
+            if md != "-":
+                hist["outcome"]["judged-against-den"] = hist["outcome"].get("judged-against-den", 0) + 1
+                if md in ("STUCK", "NOTREE"):
+                    sink.add_diff({"case": hl[k][:300], "run": j}, md, hr, "generated case has no defined denotation")
+                elif hr != md:
+                    sink.add_violation("denotation:%s" % run_["mode"],
+                                     "run %d (mode %s) returns %s, the recursive evaluation of the active tree gives %s"
+                                     % (j, run_["mode"], hr, md), dict(rj, got=hr, denotation=md))
+            # O2: history independence (impl vs impl)
+            if hf != "-" and hf != hr:
+                sink.add_violation("history:%s" % run_["mode"],
+                                 "run %d on a used interpreter object (mode %s) returns %s, a fresh interpreter returns %s"
+                                 % (j, run_["mode"], hr, hf), dict(rj, got=hr, fresh=hf))
+            # O4 / O5: model-free expectations
+            if c["family"] == "lazy" and masked not in (None, "-"):
+                # the expectation presupposes that the conditional, as written in the source NOW, does
+                # not ask for the poisoned position (the regenerated strategy tells)
+                if str(c["poison_arg"]) in masked.split(","):
+                    hist["outcome"]["lazy-not-applicable"] = hist["outcome"].get("lazy-not-applicable", 0) + 1
+                    continue
+            if "expect" in c and hr != c["expect"][j]:
+                key = "feature" if c["family"] == "var" else "lazy"
+                sink.add_violation("%s:%s" % (key, run_["mode"]),
+                                 ("a variable program returns %s, the example's feature is %s" if key == "feature" else
+                                  "conditional with a known outcome and a throwing untaken branch returns %s, expected %s")
+                                 % (hr, c["expect"][j]), dict(rj, got=hr, expected=c["expect"][j]))
+        # O3: same active tree, other layout (impl vs impl)
+        if "base" in c and parsed[c["base"]] is not None:
+            b = cases[c["base"]]
+            bres = [parsed[c["base"]][j][0] for j, r in enumerate(b["runs"]) if r["mode"] in "bBesLC"]
+            vres = [r[0] for r in hruns]
+            if bres != vres:
+                sink.add_violation("layout:%s" % c["how"],
+                                 "the same active tree laid out differently (%s) gives %s instead of %s"
+                                 % (c["how"], vres, bres), dict(rep, base_results=bres, variant_results=vres))
+        if k < 2 or k % (len(cases) // 4 + 1) == 0:
+            sink.sample({"family": c["family"], "harness_line": hl[k][:600], "impl": ho[:400], "model": mo[:400]})
+
+
+def compact(case):
+    """drop the cells that no run can reach, renumber the rows densely"""
+    roots = [tuple(case["best"])] + [tuple(r["l"]) for r in case["runs"]]
+    keep = set()
+    for r in roots:
+        keep |= active(case, r)[0]
+    rows = sorted({l[0] for l in keep})
+    if len(rows) == case["nrows"] and len(keep) == len(case["cells"]):
+        return None
+    new = {r: i for i, r in enumerate(rows)}
+    out = dict(case)
+    out["cells"] = [dict(c, row=new[c["row"]], args=[new[a] for a in c["args"]]) for c in case["cells"]
+                    if (c["row"], sym_info(c["sym"])[0]) in keep]
+    out["nrows"] = len(rows)
+    out["best"] = [new[case["best"][0]], case["best"][1]]
+    out["runs"] = [dict(r, l=[new[r["l"][0]], r["l"][1]]) for r in case["runs"]]
+    return out
+
+
+def shrink(case, oracle, env, run_index):
+    """greedy: cut the history after the failing run, drop earlier runs, drop unreachable cells"""
+    def fails(c):
+        sink = Collect()
+        try:
+            judge([c], env, sink, {"family": {}, "mode": {}, "rows": {}, "cats": {}, "outcome": {}})
+        except Exception:
+            return False
+        return any(v["key"].split(":")[0] == oracle for v in sink.violations)
+    cur = dict(case)
+    cur.pop("base", None)
+    if not fails(cur):
+        return None
+    def with_runs(c, runs_idx):
+        d = dict(c, runs=[c["runs"][i] for i in runs_idx])
+        if "expect" in c:
+            d["expect"] = [c["expect"][i] for i in runs_idx]
+        return d
+    if run_index is not None and run_index + 1 < len(cur["runs"]):
+        cand = with_runs(cur, list(range(run_index + 1)))
+        if fails(cand):
+            cur = cand
+    i = 0
+    while len(cur["runs"]) > 1 and i < len(cur["runs"]):
+        cand = with_runs(cur, [j for j in range(len(cur["runs"])) if j != i])
+        if fails(cand):
+            cur = cand
+        else:
+            i += 1
+    cand = compact(cur)
+    if cand is not None and fails(cand):
+        cur = cand
+    return cur
+
+
+def _retry(fn, *a):
+    """the snapshot directories under .build are garbage-collected by concurrent checks of other
+    properties; a build that lost its snapshot half-way is simply started again"""
+    for attempt in range(4):
+        try:
+            return fn(*a)
+        except vv.BuildError as e:
+            if attempt == 3 or "No such file or directory" not in str(e) or ".build/" not in str(e) and "kernel/vita.h" not in str(e):
+                raise
+            vv.log("snapshot vanished during the build (concurrent run); retrying")
+
+
 def run(ck):
-    L = vv.build_lib("asan")
+    L = _retry(vv.build_lib, "asan")
     idents, problems, regenerated = pc.regen_prims(L["snap"])
     ck.tie = "regenerated+correspondence" if regenerated else "correspondence"
     if problems:
@@ -575,7 +759,7 @@ def run(ck):
                           "well-formed genome; UB (out-of-range index, default-constructed gene) is the outcome "
                           "RStuck, C++ exceptions are RThrow and are part of the equality with the denotation")
 
-    harness = vv.build_harness("h_interp")
+    harness = _retry(vv.build_harness, "h_interp")
     model = vv.ocaml_model("Interp")
     idx = {n: i for i, n in enumerate(idents)}
 
@@ -586,92 +770,24 @@ def run(ck):
         cases = generate(ck)
     cases = [c for c in cases if all(s["id"] in idx for s in (x["sym"] for x in c["cells"]) if s["k"] == "P")]
 
-    hl, ml = [], []
-    for c in cases:
-        h, m = lines_of(c, idx, want_den(c))
-        hl.append(h)
-        ml.append(m)
-    hout, crashes = pc.run_harness_resilient(harness, hl)
-    rc, mout, merr = vv.run_lines(model, "\n".join(ml) + "\n")
-    if rc != 0 or len(mout) != len(cases):
-        raise vv.BuildError("model driver failed: rc=%s %s" % (rc, merr[:500]))
-
+    env = (idx, harness, model)
     hist = {"family": {}, "mode": {}, "rows": {}, "cats": {}, "outcome": {}}
-
-    def bump(h, k):
-        hist[h][k] = hist[h].get(k, 0) + 1
-    parsed = [None] * len(cases)
-    n_den = 0
-    for k, c in enumerate(cases):
-        ck.count(len(c["runs"]))
-        bump("family", c["family"])
-        bump("rows", "<=12" if c["nrows"] <= 12 else "<=45" if c["nrows"] <= 45 else ">45")
-        bump("cats", str(c["ncats"]))
-        ho, mo = hout[k], mout[k]
-        rep = {"cases": [strip_case(c)], "harness_line": hl[k], "impl": ho, "model": mo}
-        if "base" in c:
-            rep["cases"] = [strip_case(cases[c["base"]]), dict(strip_case(c), base=0)]
-        if ho is None or ho.startswith("CRASH"):
-            ck.add_violation("sanitizer:%s" % c["family"], "the interpreter executes undefined behaviour on a "
-                             "well-formed program (sanitizer report / crash)",
-                             dict(rep, sanitizer=crashes.get(k, "")[-2000:]))
+    judge(cases, env, ck, hist)
+    # shrink the first failing input of every oracle
+    done = set()
+    for v in list(ck.violations):
+        oracle = v["key"].split(":")[0]
+        rp = v["replay"]
+        if oracle in done or oracle == "layout" or len(rp.get("cases", [])) != 1:
             continue
-        if ho.startswith("BADLINE") or mo.startswith("BADLINE"):
-            ck.add_diff({"case": hl[k][:300]}, mo[:200], ho[:200], "harness or model driver rejected the case")
-            continue
-        head, hruns = parse_out(ho)
-        mhead, mruns = parse_out(mo)
-        parsed[k] = hruns
-        if head != expected_cats(c):
-            ck.add_diff({"case": hl[k][:300]}, expected_cats(c), head, "symbol categories differ from the model's table")
-        if mhead != "W 1":
-            ck.add_diff({"case": hl[k][:300]}, mhead, "-", "generated genome is not wf_genome_b (generator bug)")
-        _, shared = active(c, c["best"])
-        if shared or len({tuple(r["ex"]) for r in c["runs"] if r["mode"] in "slLB"}) >= 2:
-            ck.nontriv(hl[k])
-        for j, run_ in enumerate(c["runs"]):
-            bump("mode", run_["mode"])
-            hr, hf, hs = hruns[j]
-            mr, md, ms = mruns[j]
-            bump("outcome", "THROW" if hr == "THROW" else hr[0])
-            rj = dict(rep, run_index=j, mode=run_["mode"])
-            # correspondence: machine model vs implementation (result and state)
-            if hr != mr or hs != ms:
-                ck.add_diff({"case": hl[k][:400], "run": j}, "R %s S %s" % (mr, ms), "R %s S %s" % (hr, hs))
-            # O1: the denotation of the unfolded tree
-            if md != "-":
-                n_den += 1
-                if md in ("STUCK", "NOTREE"):
-                    ck.add_diff({"case": hl[k][:300], "run": j}, md, hr, "generated case has no defined denotation")
-                elif hr != md:
-                    ck.add_violation("denotation:%s" % run_["mode"],
-                                     "run %d (mode %s) returns %s, the recursive evaluation of the active tree gives %s"
-                                     % (j, run_["mode"], hr, md), dict(rj, got=hr, denotation=md))
-            # O2: history independence (impl vs impl)
-            if hf != "-" and hf != hr:
-                ck.add_violation("history:%s" % run_["mode"],
-                                 "run %d on a used interpreter object (mode %s) returns %s, a fresh interpreter returns %s"
-                                 % (j, run_["mode"], hr, hf), dict(rj, got=hr, fresh=hf))
-            # O4 / O5: model-free expectations
-            if "expect" in c and hr != c["expect"][j]:
-                key = "feature" if c["family"] == "var" else "lazy"
-                ck.add_violation("%s:%s" % (key, run_["mode"]),
-                                 ("a variable program returns %s, the example's feature is %s" if key == "feature" else
-                                  "conditional with a known outcome and a throwing untaken branch returns %s, expected %s")
-                                 % (hr, c["expect"][j]), dict(rj, got=hr, expected=c["expect"][j]))
-        # O3: same active tree, other layout (impl vs impl)
-        if "base" in c and parsed[c["base"]] is not None:
-            b = cases[c["base"]]
-            bres = [parsed[c["base"]][j][0] for j, r in enumerate(b["runs"]) if r["mode"] in "bBesL"]
-            vres = [r[0] for r in hruns]
-            if bres != vres:
-                ck.add_violation("layout:%s" % c["how"],
-                                 "the same active tree laid out differently (%s) gives %s instead of %s"
-                                 % (c["how"], vres, bres), dict(rep, base_results=bres, variant_results=vres))
-        if k < 2 or k % (len(cases) // 4 + 1) == 0:
-            ck.sample({"family": c["family"], "harness_line": hl[k][:600], "impl": ho[:400], "model": mo[:400]})
+        done.add(oracle)
+        small = shrink(rp["cases"][0], oracle, env, rp.get("run_index"))
+        if small is not None:
+            h, _ = lines_of(small, idx, want_den(small))
+            rp["shrunk"] = {"cases": [strip_case(small)], "harness_line": h,
+                            "note": "same oracle still fails on this smaller case (replay it by putting it in 'cases')"}
     ck.coverage["histogram"] = hist
-    ck.coverage["runs_judged_against_tree_denotation"] = n_den
+    ck.coverage["runs_judged_against_tree_denotation"] = hist["outcome"].get("judged-against-den", 0)
     ck.coverage["programs"] = len(cases)
     return ck.finish(
         rule="random well-formed multi-category MEP genomes of shipped primitives (2..200 rows, 1..5 categories, "
